@@ -39,7 +39,7 @@ fn verif_hasher_cache_driver() {
                     if !done.get() {
                         done.set(true);
                         let mut fh = std::fs::OpenOptions::new().write(true).open(&file).unwrap();
-                        fh.seek(SeekFrom::Start(200_000)).unwrap();
+                        fh.seek(SeekFrom::Start(100)).unwrap(); // inside the buffer that has already been read
                         fh.write_all(&vec![b'B'; 1000]).unwrap();
                         drop(fh);
                         set_mtime(&file, filetime_of(1_600_000_777));
